@@ -79,7 +79,8 @@ pub fn add_element(m: &mut Model, c: &Cfg, name: &str, k: usize) {
     };
     let w = wall(name, BOUNDS[c.bounds], cons, sp, nt, g);
     if c.ovr == 1 {
-        m.overrides.walls.insert(w.id, WallPropsOverrides { u_value: Some(0.33), ..Default::default() });
+        // (a user value of exactly zero is a user value: every other configuration uses it)
+        m.overrides.walls.insert(w.id, WallPropsOverrides { u_value: Some([0.33, 0.0][(c.tilt + c.space + c.next) % 2]), ..Default::default() });
     }
     let wid = w.id;
     m.walls.push(w);
@@ -89,7 +90,7 @@ pub fn add_element(m: &mut Model, c: &Cfg, name: &str, k: usize) {
         2 => m.windows.push(window(&format!("{name}_v"), uid("missing-wincons"), wid, Some([1.0, 1.0]), 1.5, 1.2, 0.0)),
         3 => {
             let v = window(&format!("{name}_v"), uid("winc"), wid, Some([1.0, 1.0]), 1.5, 1.2, 0.0);
-            m.overrides.windows.insert(v.id, WinPropsOverrides { u_value: Some(1.1), f_shobst: Some(0.5), ..Default::default() });
+            m.overrides.windows.insert(v.id, WinPropsOverrides { u_value: Some([1.1, 0.0][(c.bounds + c.mult) % 2]), f_shobst: Some(0.5), ..Default::default() });
             m.windows.push(v);
         }
         5 => {
@@ -259,7 +260,7 @@ pub fn run08(ctx: &Ctx) -> i32 {
     ctx.sample(json!({"part": "pair", "a": format!("{:?}", core[5]), "b": format!("{:?}", core[77])}));
     ctx.finish(
         "model_checking",
-        "all 8064 single-element configurations (bounds 4 x tilt 3 x space{inside,outside,missing} x next_to{None,inside,outside,missing} x U override{-,set} x construction{ok,missing} x multiplier{1,2.5} x window{none,resolvable,unresolvable construction,overridden,overridden+unresolvable,covering the whole wall,construction present but frame missing}) in a fixed two-space context; all 25600 ordered pairs over a 160-configuration core (when both elements have a window the first wall gets a second window stored after the second wall's, so its windows are not contiguous in the list; + list reversal and id relabeling on every 5th pair); 9 bridge kinds x l{-1,-0.0,0,2.5} x psi{0,.1,-.05} singly and all together; 7 shipped models; oracle: K, totals, categories, u_min/u_max/u_mean, bridge sums recomputed in f64 from the model by the statement's formula (wall U from Wall::u_value, window U from the C07 formula) with an interval for the 0.01 m2 rounding of net areas; non-trivial = envelope area > 0",
+        "all 8064 single-element configurations (bounds 4 x tilt 3 x space{inside,outside,missing} x next_to{None,inside,outside,missing} x U override{-,set: 0.33 or exactly 0 alternating} x construction{ok,missing} x multiplier{1,2.5} x window{none,resolvable,unresolvable construction,overridden,overridden+unresolvable,covering the whole wall,construction present but frame missing}) in a fixed two-space context; all 25600 ordered pairs over a 160-configuration core (when both elements have a window the first wall gets a second window stored after the second wall's, so its windows are not contiguous in the list; + list reversal and id relabeling on every 5th pair); 9 bridge kinds x l{-1,-0.0,0,2.5} x psi{0,.1,-.05} singly and all together; 7 shipped models; oracle: K, totals, categories, u_min/u_max/u_mean, bridge sums recomputed in f64 from the model by the statement's formula (wall U from Wall::u_value, window U from the C07 formula) with an interval for the 0.01 m2 rounding of net areas; non-trivial = envelope area > 0",
         true,
         json!({"singles": n, "pairs": np}),
     )
@@ -383,7 +384,7 @@ fn az_alphabet() -> Vec<f32> {
     v
 }
 
-const C10_TILTS: [f32; 7] = [0.0, 59.99, 60.0, 60.01, 90.0, 120.0, 180.0];
+const C10_TILTS: [f32; 11] = [0.0, 59.99, 60.0, 60.01, 90.0, 120.0, 180.0, 330.0, 360.0, 390.0, -30.0];
 
 fn c10_model(zone_name: &str, az: f32, tilt: f32, fsh: usize, cons: usize, mult: f32, bounds: usize) -> Model {
     let mut m = context(zone_name, mult);
@@ -504,7 +505,7 @@ pub fn run10(ctx: &Ctx) -> i32 {
     ctx.sample(json!({"part": "single", "zone": zones[t[0]], "azimuth": azs[t[1]], "tilt": C10_TILTS[t[2]], "f_shobst": t[3], "cons": t[4], "mult": t[5], "bounds": t[6]}));
     ctx.finish(
         "model_checking",
-        &format!("full product zones({}) x 37 azimuths (every orientation-class boundary -0.01/0/+0.01, class centres, negative and >360 equivalents) x tilt{{0,59.99,60,60.01,90,120,180}} x F_sh,obst{{override,computed with a shade,none,computed with a shade + an override entry fixing only U (gains bit-identical to the model without the entry)}} x construction{{ok,missing}} x multiplier{{1,3}} x bounds(4); ordered pairs of 48 window configurations per zone; models without window / without envelope window / zero reference area; shipped models re-zoned; oracle: gains, q, a_wp, area-weighted means and per-orientation breakdown from the statement's formula in f64 with H looked up in MONTHLYRADDATA (dir[6]+dif[6]) by an independent orientation classifier; non-trivial = envelope window area > 0", zones.len()),
+        &format!("full product zones({}) x 37 azimuths (every orientation-class boundary -0.01/0/+0.01, class centres, negative and >360 equivalents) x tilt{{0,59.99,60,60.01,90,120,180,330,360,390,-30}} x F_sh,obst{{override,computed with a shade,none,computed with a shade + an override entry fixing only U (gains bit-identical to the model without the entry)}} x construction{{ok,missing}} x multiplier{{1,3}} x bounds(4); ordered pairs of 48 window configurations per zone; models without window / without envelope window / zero reference area; shipped models re-zoned; oracle: gains, q, a_wp, area-weighted means and per-orientation breakdown from the statement's formula in f64 with H looked up in MONTHLYRADDATA (dir[6]+dif[6]) by an independent orientation classifier; non-trivial = envelope window area > 0", zones.len()),
         true,
         json!({"singles": n, "pairs": np}),
     )
